@@ -31,7 +31,8 @@ Proof.
   destruct e.
   - (* ESend *)
     destruct (NS ltac:(intros ? X; discriminate X)) as (s1 & o1 & ep & o2 & C & A & E). cbn [core] in C.
-    destruct ((cnt <? 1) || (bytes <? 0)); inv C; simpl in A.
+    destruct ((cnt <? 1) || (bytes <? 0)); [|destruct (stopping s)]; inv C; simpl in A.
+    + inv A. eapply SAME; [reflexivity|reflexivity|]. intros a m v [X|[]]; discriminate.
     + inv A. eapply SAME; [reflexivity|reflexivity|]. intros a m v [X|[]]; discriminate.
     + match type of A with check_send_batch _ ?st = _ => destruct (not_idle_no_dispatch c st NI) as [_ X] end.
       rewrite X in A. inv A. eapply SAME; [reflexivity|reflexivity|apply no_sp_nil].
